@@ -586,12 +586,11 @@ def fromIeee (c : Cfg) (seb sfb : Nat) (qmask smask : Nat) (bits : Nat) : Nat :=
     there is NO detour through double in this build (`LONG_DOUBLE_DOWNCAST` is only defined when bit_cast is not constexpr).
     What differs from the float/double instantiations (`fromIeee`):
     * sizeof(long double) = 16: neither identical-layout copy branch is taken;
-    * `ieee754_parameter<long double>::hmask` = 0x8000'0000'0000'0001 (`hmask`, regenerated): or-ing the hidden bit into a
-      value of the target's subnormal range also sets bit 0, which then reads as round / sticky;
-    * `qnanmask / snanmask` are the binary64 masks (bits 62…51 / 62…50 of the 63-bit fraction);
+    * `ieee754_parameter<long double>::hmask / qnanmask / snanmask` are parameters (regenerated from the header: since the
+      repairs 0x8000'0000'0000'0000 — the integer bit —, 0x4000… — the quiet bit of the 63-bit fraction — and 0x2000…);
     * in the subnormal range the shift `rightShift + adjustment` reaches 64 at exponent MIN_EXP_SUBNORMAL − 1 (for float /
-      double it stays below the width): `1ull << 64` and `rawFraction >>= 64` are undefined; the x86-64 code g++ emits
-      takes the count modulo 64 (`tm`), the sticky mask uses the true count;
+      double it stays below the width): since the repair "must not shift by 64" the lsb mask is 0, the guard mask bit 63
+      and the shifted fraction 0 there;
     * `bits` is a uint64_t: requires nbits ≤ 64 on the narrowing path (fbits < 63);
     * fbits ≥ 63 implies nbits ≥ 65: the block path (`setbits(biasedExponent); shiftLeft(fbits);` fraction blocks
       shifted by fbits − 63 and or-ed in, `&= MSU_MASK`, `setsign`), `biasedExponent` = exponent + bias as a uint64_t —
@@ -622,12 +621,12 @@ def fromLD (c : Cfg) (qmask smask hmask : Nat) (bits : Nat) : Nat :=
         let biased : Nat := if subn then 0 else (exponent + c.bias).toNat
         let adj : Nat := if subn then (-(exponent + c.srs)).toNat else 0
         let t := rightShift + adj
-        let tm := t % 64
-        let lsb := frac.testBit tm
-        let guard := tm ≥ 1 && frac.testBit (tm - 1)
-        let round := tm ≥ 2 && frac.testBit (tm - 2)
+        -- `lsbShift` = t ≤ 64; the masks and the shift are guarded for 64 (repair "must not shift by 64 …")
+        let lsb := t < 64 && frac.testBit t
+        let guard := if t < 64 then frac.testBit (t - 1) else frac.testBit 63
+        let round := t ≥ 2 && frac.testBit (t - 2)
         let sticky := t ≥ 2 && frac % 2 ^ (t - 2) != 0
-        let fr0 := frac >>> tm
+        let fr0 := if t < 64 then frac >>> t else 0
         let fr1 := if guard then
             (if lsb && !round && !sticky then fr0 + 1 else fr0) + (if round || sticky then 1 else 0)
           else fr0
